@@ -13,6 +13,7 @@
 #include <string>
 #include <vector>
 #include <unistd.h>
+#include <sys/stat.h>
 #include "xtl/xsystem.hpp"
 #include "xtl/xplatform.hpp"
 #include "vjson.hpp"
@@ -117,7 +118,13 @@ int main()
         std::string pre2 = xtl::prefix_path();
         vj::out again;
         again.kraw("exe", describe(exe2)).kraw("prefix", describe(pre2));
+        // a second route to "names the running binary": the file at the returned path is the running image (same device
+        // and inode as /proc/self/exe); and the returned prefix is a leading substring of the returned path
+        struct stat sa, sb;
+        bool same = ::stat(exe.c_str(), &sa) == 0 && ::stat("/proc/self/exe", &sb) == 0 && sa.st_dev == sb.st_dev && sa.st_ino == sb.st_ino;
+        bool pfx = !pre.empty() && exe.compare(0, pre.size(), pre) == 0;
         vj::out res;
+        res.kb("same", same).kb("pfx", pfx);
         res.kraw("exe", describe(exe)).kraw("prefix", describe(pre)).kv("bytes", (long long)exe.size()).kraw("again", again.obj());
         // what the kernel says, read independently with a large buffer: not compared by the spec, used by the
         // runner only to tell "the configuration was not materialised as intended" from a violation
